@@ -14,6 +14,7 @@ hist    shared <0|1>                         storage and middleware use one data
         count <n>                            rows the repository counts beyond the reported ones (must be 0)
 disp    stage <s> <maxAttempts> <minBackoff ms> <maxBackoff ms> <concurrency> <batch> <lease ms>   (1 or 2 stages: the
              dispatcher is restarted with another MaxAttempts)
+        start <i> <attempts>                 the row already has this many attempts when the dispatcher starts (default 0)
         entry <i> <script per stage>         per Publish call: 1 ok · 0 failed, reported · K ok, delete lost · L failed,
              report lost (worker died between claim and report / ReleaseClaim or DeadLetter failed); then: succeed
         pub <i> <stage> <attempt> <outcome> <lo ms|~> <hi ms|~> <early 0|1>   the backoff after a reported, released failure lies
@@ -54,19 +55,19 @@ def mutationOf (s : String) : Option Mutation :=
   | _ => none
 
 /-- the call an `op` line stands for -/
-def callOf (bucket : Str) (keys : List Str) (muts : List Mutation) (src : Target) : Option Call :=
+def callOf (bucket : Str) (keys : List Str) (muts : List Mutation) (src : Target) (refused : List Str := []) : Option Call :=
   match muts, keys with
   | [.put], [k] => some (.put { bucket := bucket, key := k })
   | [.copy], [k] => some (.copy src { bucket := bucket, key := k })
   | [.completeMultipart], [k] => some (.complete { bucket := bucket, key := k })
-  | [.delete], [k] => some (.delete { bucket := bucket, key := k } false)
-  | [.deleteMarkerCreated], [k] => some (.delete { bucket := bucket, key := k } true)
+  | [.delete], [k] => if refused.isEmpty then some (.delete { bucket := bucket, key := k } false) else some (.deleteObjects bucket [(k, false)] refused)
+  | [.deleteMarkerCreated], [k] => if refused.isEmpty then some (.delete { bucket := bucket, key := k } true) else some (.deleteObjects bucket [(k, true)] refused)
   | [.taggingPut], [k] => some (.tagPut { bucket := bucket, key := k })
   | [.taggingDelete], [k] => some (.tagDel { bucket := bucket, key := k })
   | [.append], [k] => some (.append { bucket := bucket, key := k })
   | ms, ks =>
-    if ms.length == ks.length && ms.length ≥ 2 && ms.all (fun m => m == .delete || m == .deleteMarkerCreated) then
-      some (.deleteObjects bucket ((ks.zip ms).map fun (k, m) => (k, m == .deleteMarkerCreated)))
+    if ms.length == ks.length && (ms.length ≥ 2 || !refused.isEmpty) && ms.all (fun m => m == .delete || m == .deleteMarkerCreated) then
+      some (.deleteObjects bucket ((ks.zip ms).map fun (k, m) => (k, m == .deleteMarkerCreated)) refused)
     else none
 
 def faultOf (s : String) : Option Fault :=
@@ -142,14 +143,17 @@ def judgeHist (lines : List String) : Verdict := Id.run do
       nops := nops + 1
       let cfgOf : Str → Config := fun b => ((cfgs.find? fun (_, n, _) => n == b).map (·.2.2)).getD { rules := [], eventBridge := false }
       let bucket := ((cfgs.find? fun (j, _, _) => j == bidx.toNat!).map (·.2.1)).getD []
-      let ks := (listTok keys).map strTok
-      let ms := (listTok muts).filterMap mutationOf
+      -- entries of a bulk delete that the storage must refuse carry the mutation token `refused`
+      let pairs := (listTok muts).zip ((listTok keys).map strTok)
+      let refusedKeys := (pairs.filter fun p => p.1 == "refused").map (·.2)
+      let ks := (pairs.filter fun p => p.1 != "refused").map (·.2)
+      let ms := (pairs.filter fun p => p.1 != "refused").filterMap fun p => mutationOf p.1
       let srcT : Target := if src == "~" then { bucket := [], key := [] } else let p := pairTok ":" src; { bucket := p.1, key := p.2 }
       let obsRows := sortRows ((listTok rows).filterMap fun x =>
         match x.splitOn ":" with
         | [d, e, b, k] => some { dest := strTok d, event := strTok e, bucket := strTok b, key := strTok k }
         | _ => none)
-      match faultOf fault, callOf bucket ks ms srcT with
+      match faultOf fault, callOf bucket ks ms srcT refusedKeys with
       | some flt, some call =>
         -- tie: the middleware's events for this call, evaluated against the configuration of the event's bucket
         let out := attempt shared (entriesForAll cfgOf (codeEvents call)) flt
@@ -175,6 +179,12 @@ def judgeHist (lines : List String) : Verdict := Id.run do
             let mk := (listTok muts).headD "?"
             -- a row for an object the call did not mutate (another bucket / key) gets its own signature
             let foreign := extra.filter fun r => !(mutated call).any fun mt => mt.2.bucket == r.bucket && mt.2.key == r.key
+            -- … and a row for a bulk-delete entry that the storage refused
+            let forRefused := foreign.filter fun r => r.bucket == bucket && refusedKeys.contains r.key
+            let foreign := minus foreign forRefused
+            if !forRefused.isEmpty then
+              vio := vio ++ [("C22.row-for-refused-batch-delete-entry", s!"{kind} on bucket {showStr bucket}: rows [{showRows forRefused}] for entries the storage refused (the objects are still there)")]
+            let extra := minus extra forRefused
             if !foreign.isEmpty then
               vio := vio ++ [(s!"C22.row-addressed-to-unmutated-object.{mk}", s!"{kind} on bucket {showStr bucket}: rows [{showRows foreign}] name a bucket/key this call did not mutate")]
             if !(minus extra foreign).isEmpty then
@@ -197,13 +207,14 @@ structure PubObs where
   stage : Nat
   attempt : Nat
   outcome : Char
-  lo : Option Nat
-  hi : Option Nat
+  lo : Option Int
+  hi : Option Int
   early : Bool
 
 structure EntryObs where
   idx : Nat
   scripts : List (List PubOutcome)
+  start : Nat := 0
   pubs : List PubObs := []
   final : String := "?"
   attempts : Option Nat := none
@@ -216,8 +227,8 @@ def outcomeChar : PubOutcome → Char
 
 /-- the model over the stages: each stage continues with the attempt count the previous one left;
 the publisher double succeeds once the last script is used up -/
-def runStages (cfgs : List DCfg) (scripts : List (List PubOutcome)) : Final × List (Nat × Pub) := Id.run do
-  let mut a := 0
+def runStages (cfgs : List DCfg) (scripts : List (List PubOutcome)) (start : Nat := 0) : Final × List (Nat × Pub) := Id.run do
+  let mut a := start
   let mut fin : Final := .pending 0
   let mut pubs : List (Nat × Pub) := []
   let n := scripts.length
@@ -246,8 +257,10 @@ def judgeDisp (lines : List String) : Verdict := Id.run do
     | "entry" :: i :: scs =>
       entries := entries ++ [{ idx := i.toNat!, scripts := scs.map fun sc => if sc == "~" then [] else sc.toList.map outcomeOf }]
     | ["pub", i, st, a, o, lo, hi, early] =>
-      let p : PubObs := { stage := st.toNat!, attempt := a.toNat!, outcome := (o.toList.headD '?'), lo := lo.toNat?, hi := hi.toNat?, early := early == "1" }
+      let p : PubObs := { stage := st.toNat!, attempt := a.toNat!, outcome := (o.toList.headD '?'), lo := lo.toInt?, hi := hi.toInt?, early := early == "1" }
       entries := entries.map fun e => if e.idx == i.toNat! then { e with pubs := e.pubs ++ [p] } else e
+    | ["start", i, a] =>
+      entries := entries.map fun e => if e.idx == i.toNat! then { e with start := a.toNat! } else e
     | ["final", i, f, a] =>
       entries := entries.map fun e => if e.idx == i.toNat! then { e with final := f, attempts := a.toNat? } else e
     | ["panic", m] => vio := vio ++ [("C22.panic", s!"panic: {(unhexStr m).getD m}")]
@@ -262,7 +275,7 @@ def judgeDisp (lines : List String) : Verdict := Id.run do
   for e in entries do
     npubs := npubs + e.pubs.length
     -- tie
-    let (fin, pubs) := runStages dcs e.scripts
+    let (fin, pubs) := runStages dcs e.scripts e.start
     let finS := match fin with | .delivered => "delivered" | .dead => "dead" | .pending _ => "pending"
     if finS != e.final then div := div ++ [s!"entry {e.idx}: model final={finS}, impl {e.final}"]
     let mseq := pubs.map fun (st, p) => (st, p.attempt, p.ok)
@@ -275,7 +288,7 @@ def judgeDisp (lines : List String) : Verdict := Id.run do
         | some lo =>
           ndelays := ndelays + 1
           -- the computed delay lies between the two measurements — no tolerance involved
-          if m.delay < lo || (match o.hi with | some hi => hi < m.delay | none => false) then
+          if (m.delay : Int) < lo || (match o.hi with | some hi => hi < (m.delay : Int) | none => false) then
             delayMiss := delayMiss ++ [s!"entry {e.idx} attempt {o.attempt}: model backoff {m.delay} ms, observed between {lo} and {o.hi} ms"]
         | none => pure ()
     -- judge
@@ -298,7 +311,7 @@ def judgeDisp (lines : List String) : Verdict := Id.run do
         if stageMax p.stage == 0 || p.outcome != '0' || p.attempt < stageMax p.stage then
           vio := vio ++ [("C22.deadlettered-after-wrong-number-of-attempts", s!"entry {e.idx}: dead-lettered after attempt {p.attempt} (outcome {p.outcome}), MaxAttempts={stageMax p.stage}")]
       | none => vio := vio ++ [("C22.deadlettered-after-wrong-number-of-attempts", s!"entry {e.idx}: dead-lettered without any publish")]
-      if lost == 0 && e.scripts.length == 1 && (e.pubs.filter (·.outcome == '0')).length != stageMax 0 then
+      if lost == 0 && e.start == 0 && e.scripts.length == 1 && (e.pubs.filter (·.outcome == '0')).length != stageMax 0 then
         vio := vio ++ [("C22.deadlettered-after-wrong-number-of-attempts", s!"entry {e.idx}: dead-lettered after {(e.pubs.filter (·.outcome == '0')).length} failed publishes, MaxAttempts={stageMax 0}")]
     else
       vio := vio ++ [("C22.entry-neither-delivered-nor-deadlettered", s!"entry {e.idx}: final state {e.final} (attempts {e.attempts}) after its script, all backoffs and leases elapsed")]
@@ -311,7 +324,7 @@ def judgeDisp (lines : List String) : Verdict := Id.run do
         vio := vio ++ [("C22.retried-after-exhausting-max-attempts", s!"entry {e.idx}: publish #{j} (attempt {p.attempt}, MaxAttempts={stageMax p.stage}) failed and was reported, yet {n - j} more publish(es) followed")]
         break
     -- … and with one stage the number of publishes is at most MaxAttempts + lost reports
-    if e.scripts.length == 1 && stageMax 0 > 0 && n > stageMax 0 + lost then
+    if e.scripts.length == 1 && e.start == 0 && stageMax 0 > 0 && n > stageMax 0 + lost then
       vio := vio ++ [("C22.attempts-exceed-bound", s!"entry {e.idx}: {n} publishes, MaxAttempts={stageMax 0}, {lost} lost reports")]
     -- backoff bounded by the configured limits, never retried before it elapsed
     for o in e.pubs do
@@ -321,12 +334,12 @@ def judgeDisp (lines : List String) : Verdict := Id.run do
       let lower := if dc.minBackoff * 2 ^ (o.attempt - 1) > dc.maxBackoff then dc.maxBackoff else dc.minBackoff * 2 ^ (o.attempt - 1)
       match o.lo with
       | some lo =>
-        if lo > dc.maxBackoff then
+        if lo > (dc.maxBackoff : Int) then
           vio := vio ++ [("C22.backoff-out-of-bounds", s!"entry {e.idx} after attempt {o.attempt}: delay ≥ {lo} ms exceeds MaxBackoff {dc.maxBackoff}")]
       | none => pure ()
       match o.hi with
       | some hi =>
-        if hi < lower then
+        if hi < (lower : Int) then
           boundMiss := boundMiss ++ [s!"entry {e.idx} after attempt {o.attempt}: delay ≤ {hi} ms, expected min({dc.minBackoff}·2^{o.attempt - 1}, {dc.maxBackoff})"]
       | none => pure ()
   div := div ++ delayMiss.take 3
